@@ -2347,3 +2347,9 @@ def run_usage(ctx, shard, stream, origin):
 def _descr(v):
     from rv.snap import describe
     return describe(v)
+
+
+# strict-caller variant shard of the runner (numpy floating-point events raise while package code runs): on the
+# unchanged tree nextafter of the smallest / largest coordinate values underflows / overflows;
+# these benign events are therefore not trapped for this property
+STRICT_NUMPY = {'under': 'ignore', 'over': 'ignore'}
